@@ -461,6 +461,8 @@ class Prop(PropBase):
         out["attrs_lazy"] = bool(z_d.shape == z_np.shape and z_d.dtype == z_np.dtype)
         if out["res_dask"] and kw:
             out["chunks_honoured"] = bool(tuple(z_d.data.chunks[0]) == tuple(c["tchunks"]))
+        elif out["res_dask"]:      # documented default: no chunking along the time axis
+            out["chunks_honoured"] = bool(len(z_d.data.chunks[0]) <= 1)
         try:
             comp = z_d.compute(**self._sched(c["sched"]))
         except Exception as e:      # noqa
